@@ -22,7 +22,7 @@ fn zero_call<A: Copy + std::fmt::Debug, M: Bytes<A>>(m: &M, entry: u64, addr: A,
 where
     M::E: std::fmt::Debug,
 {
-    for variant in 0..4u64 {
+    for variant in 0..5u64 {
         zero_call_v(m, entry, addr, valid, variant, what)?;
         if entry < 6 {
             break;
@@ -32,8 +32,8 @@ where
 }
 
 /// `variant` selects the stream object for the stream forms: sources {non-empty &[u8], empty
-/// &[u8], Cursor at its end, empty File}; sinks {Vec, full (zero-capacity) &mut [u8], &mut [u8]
-/// with room, Cursor<&mut [u8]> at its end}.
+/// &[u8], Cursor at its end, empty File, Cursor beyond its end}; sinks {Vec, full (zero-capacity)
+/// &mut [u8], &mut [u8] with room, Cursor<&mut [u8]> at its end / beyond its end}.
 fn zero_call_v<A: Copy + std::fmt::Debug, M: Bytes<A>>(m: &M, entry: u64, addr: A, valid: bool, variant: u64, what: &str) -> Result<(), String>
 where
     M::E: std::fmt::Debug,
@@ -59,11 +59,13 @@ where
                     }
                     r
                 }
-                2 => {
+                2 | 4 => {
+                    // a cursor at its end / positioned beyond its data
+                    let p0 = if variant == 2 { 3 } else { 5 };
                     let mut c = std::io::Cursor::new(&data[..]);
-                    c.set_position(3);
+                    c.set_position(p0);
                     let r = if exact { m.read_exact_volatile_from(addr, &mut c, 0).map(|_| 0) } else { m.read_volatile_from(addr, &mut c, 0) };
-                    if c.position() != 3 {
+                    if c.position() != p0 {
                         return Err(format!("{}: a zero-count transfer moved the cursor to {}", what, c.position()));
                     }
                     r
@@ -103,11 +105,12 @@ where
                     r
                 }
                 _ => {
+                    let p0 = if variant == 3 { 4 } else { 9 };
                     let mut store = [0x11u8; 4];
                     let mut c = std::io::Cursor::new(&mut store[..]);
-                    c.set_position(4);
+                    c.set_position(p0);
                     let r = if all { m.write_all_volatile_to(addr, &mut c, 0).map(|_| 0) } else { m.write_volatile_to(addr, &mut c, 0) };
-                    if c.position() != 4 {
+                    if c.position() != p0 {
                         return Err(format!("{}: a zero-count transfer moved the cursor", what));
                     }
                     r
@@ -401,7 +404,7 @@ fn gen_zst(_t: Tier) -> Box<dyn Iterator<Item = Vec<u64>>> {
     Box::new((0..4u64).flat_map(|l| (0..3u64).flat_map(move |b| (0..4u64).flat_map(move |n| (0..6u64).map(move |w| vec![l, b, n, w])))))
 }
 
-const COPY_FORMS: [&str; 7] = [
+const COPY_FORMS: [&str; 8] = [
     "region.get_slice(o, 0) + u8 copies with empty buffers",
     "guest.get_slice(base+o, 0) + u8 copies with empty buffers",
     "region get_array_ref::<[u8;0]>(o, 4) copy_to/copy_from",
@@ -409,6 +412,7 @@ const COPY_FORMS: [&str; 7] = [
     "region get_ref::<[u8;0]>(o) store/load",
     "region.get_slice(o, 0) copy_to/copy_from of [u64;0] elements",
     "region get_array_ref::<[u64;0]>(o, 1000) copy_to_volatile_slice",
+    "region get_array_ref::<u32/u16>(o, n > 0) copy_from(&[]) / copy_to(&mut [])",
 ];
 
 /// Copy forms at region and guest level: the accessor for "no bytes at offset o" is obtained from
@@ -482,6 +486,25 @@ fn run_region_copy(t: &mut Tape, cx: &mut Cx) -> Result<(), String> {
                     z.store([]);
                     let _: [u8; 0] = z.load();
                 }
+            }
+            7 => {
+                // a non-empty array and an empty buffer: no element is named
+                let n = ((l.saturating_sub(o)) / 4).min(3) as usize;
+                if n > 0 {
+                    if let Some(a) = got!(r.get_array_ref::<u32>(ou, n)) {
+                        let e: [u32; 0] = [];
+                        a.copy_from(&e[..]);
+                        let mut e2: [u32; 0] = [];
+                        ensure!(a.copy_to(&mut e2[..]) == 0, "{}: copy_to(&mut []) reported elements", what);
+                    }
+                }
+                if let Some(a) = got!(r.get_array_ref::<u16>(ou.min((l - 1) as usize).saturating_sub(1), 1)) {
+                    let e: [u16; 0] = [];
+                    a.copy_from(&e[..]);
+                }
+                let vs = r.as_volatile_slice().map_err(|e| format!("{:?}", e))?;
+                let e: [u64; 0] = [];
+                vs.copy_from(&e[..]);
             }
             _ => {
                 if let Some(a) = got!(r.get_array_ref::<[u64; 0]>(ou, 1000)) {
